@@ -53,6 +53,14 @@ CLAIMED = {
              "registered namespaces and default namespace as before.",
         note=TRUST + ". record.copy() is not yet driven. Known finding KF-unified-registers excluded by predicate.",
         ref="3 C12"),
+    "C04": dict(
+        text="(A) Eq.tla (transcription of ProvRecord/ProvBundle/ProvDocument.__eq__) is reflexive, symmetric, "
+             "transitive and equals content equivalence on every triple of documents reachable in MC_Con scenario "
+             "c04 (prefix variants, single value changes, type swap, anonymous vs identified relations, duplicates, "
+             "bundles; 4-5 calls); (B)+(C) the same triples built on the real library, all pairwise ==, != and record "
+             "hashes logged and judged by TLC against ContentEquiv of the logged projections.",
+        note=TRUST + ". scripts/prov-compare and serialisation round trips as transformations are not yet driven.",
+        ref="3 C04"),
 }
 for _c in CLAIMED.values():
     _c.setdefault("technique", TECH)
